@@ -10,6 +10,38 @@ def run(ctx):
     P = semcheck.gen_programs(ctx.seed * 7919 + 311, ctx.pick(120, 1500), "strat", evidence=False, max_worlds=128, nonground=False)
     P += common.ad_family(ctx.pick(100, 1200), ctx.seed + 31000)
     P += common.family_small(ctx.pick(60, 800), ctx.seed + 31100)
+    # one annotated disjunction reaching one exported atom through several of its outcomes: a rule head over a
+    # non-ground call of the AD's heads, and an AD that repeats a head atom
+    import random
+    rng = random.Random(ctx.seed + 313131)
+    for k in range(ctx.pick(60, 600)):
+        p = progs.empty_program(("c1", "c2", "c3"))
+        nh = rng.randint(2, 3)
+        ws = [rng.randint(1, 3) for _ in range(nh)]
+        if rng.random() < 0.5:
+            heads = [{"p": [w, 10], "atom": progs.atom("p", "c%d" % (i + 1))} for i, w in enumerate(ws)]
+            p["ads"].append({"heads": heads, "body": []})
+            p["rules"].append({"head": progs.atom("q"), "body": [progs.lit(progs.atom("p", "X"))]})
+            if rng.random() < 0.5:
+                p["facts"].append({"p": [rng.randint(1, 9), 10], "atom": progs.atom("f")})
+                p["rules"].append({"head": progs.atom("q"), "body": [progs.lit(progs.atom("f"))]})
+                p["queries"].append(progs.atom("f"))
+            if rng.random() < 0.4:
+                p["rules"].append({"head": progs.atom("r"), "body": [progs.lit(progs.atom("p", "c1"))]})
+                p["queries"].append(progs.atom("r"))
+            p["queries"].append(progs.atom("q"))
+        else:
+            names = ["a", "a", "b"][:nh] if rng.random() < 0.7 else ["a", "b", "a"][:nh]
+            heads = [{"p": [w, 10], "atom": progs.atom(n)} for n, w in zip(names, ws)]
+            body = []
+            if rng.random() < 0.4:
+                p["facts"].append({"p": [rng.randint(1, 9), 10], "atom": progs.atom("f")})
+                body = [progs.lit(progs.atom("f"))]
+            p["ads"].append({"heads": heads, "body": body})
+            p["queries"].append(progs.atom("a"))
+            if "b" in names:
+                p["queries"].append(progs.atom("b"))
+        P.append(p)
     for p in P:
         p["evidence"] = []
     P = [p for p in P if all(not progs.atom_vars(q) for q in p["queries"])]
